@@ -3,10 +3,14 @@
 #include "verif_rt.h"
 uint64_t nondet_model_u64(void);
 struct vmutex { uint32_t held; uint32_t pad[9]; };
-uint32_t pthread_mutex_lock(struct vmutex *m) { VERIF_CHECK(!m->held, "pthread_mutex_lock on a mutex this thread already holds (self-deadlock)"); m->held = 1; return 0; }
+uint32_t verif_mutex_lock_calls; static void *verif_mutex_locked[4];
+uint32_t verif_mutex_was_locked(void *m) { for (int i = 0; i < 4; i++) if (verif_mutex_locked[i] == m) return 1; return 0; }
+   /* ghost: which mutexes were locked (harness observes e.g. "producers take no mutex") */
+uint32_t pthread_mutex_lock(struct vmutex *m) { VERIF_CHECK(!m->held, "pthread_mutex_lock on a mutex this thread already holds (self-deadlock)"); m->held = 1; if (verif_mutex_lock_calls < 4) verif_mutex_locked[verif_mutex_lock_calls] = m; verif_mutex_lock_calls++; return 0; }
 uint32_t pthread_mutex_unlock(struct vmutex *m) { VERIF_CHECK(m->held, "pthread_mutex_unlock on a mutex that is not held"); m->held = 0; return 0; }
 uint32_t pthread_mutex_trylock(struct vmutex *m) { if (m->held) return 16; m->held = 1; return 0; }
 uint32_t __pthread_key_create(void *k, void *d) { return 0; }
 static uint64_t clk_steady, clk_system;
-uint64_t _ZNSt6chrono3_V212steady_clock3nowEv(void) { uint64_t d = nondet_model_u64(); VERIF_ASSUME(d < (1ULL << 40)); clk_steady += d; return clk_steady; }
-uint64_t _ZNSt6chrono3_V212system_clock3nowEv(void) { uint64_t d = nondet_model_u64(); VERIF_ASSUME(d < (1ULL << 40)); clk_system += d; return clk_system + 1700000000000000000ULL; }
+uint64_t verif_clock_min_step;   /* harness may require the clocks to advance by at least this many ns per reading (bounded-progress queries) */
+uint64_t _ZNSt6chrono3_V212steady_clock3nowEv(void) { uint64_t d = nondet_model_u64(); VERIF_ASSUME(d < (1ULL << 40) && d >= verif_clock_min_step); clk_steady += d; return clk_steady; }
+uint64_t _ZNSt6chrono3_V212system_clock3nowEv(void) { uint64_t d = nondet_model_u64(); VERIF_ASSUME(d < (1ULL << 40) && d >= verif_clock_min_step); clk_system += d; return clk_system + 1700000000000000000ULL; }
